@@ -5,6 +5,7 @@ import (
 	"errors"
 	"io"
 	"sync"
+	"time"
 
 	pkgErrors "github.com/pkg/errors"
 )
@@ -80,10 +81,26 @@ RETRY:
 			// ErrSegmentReplaced indicates we attempted to read from a log
 			// segment that was replaced due to compaction, so reinitialize the
 			// contextReader and try again to read from the new segment.
-			if r.uncommitted {
-				r.ctxReader, err = r.log.newReaderUncommitted(r.offset)
-			} else {
-				r.ctxReader, err = r.log.newReaderCommitted(r.offset)
+			// Another replacement (a second truncation right behind the
+			// first, the next step of a running compaction) can hit the
+			// segment list the new contextReader is being built from. That
+			// is as retryable as the first one, so keep reinitializing until
+			// the segments hold still.
+			for {
+				if r.uncommitted {
+					r.ctxReader, err = r.log.newReaderUncommitted(r.offset)
+				} else {
+					r.ctxReader, err = r.log.newReaderCommitted(r.offset)
+				}
+				if pkgErrors.Cause(err) != ErrSegmentReplaced ||
+					r.log.IsClosed() || r.log.IsDeleted() {
+					break
+				}
+				select {
+				case <-ctx.Done():
+					return nil, 0, 0, 0, io.EOF
+				case <-time.After(time.Millisecond):
+				}
 			}
 			if err != nil {
 				return nil, 0, 0, 0, pkgErrors.Wrap(err, "failed to reinitialize reader")
